@@ -90,8 +90,12 @@ Section Render.
         if is_nil parts then [tk TIdent k_us l] else parts
     end.
 
+  Definition ctx_toks (c : ctx_sub) (l : N) : list token := [].
+  Definition ctx_dl (c : ctx_sub) : N := 0.
+
   Definition sub_toks (s : subtable) (l : N) : list token :=
     match s with
+    | Ctx c => ctx_toks c l
     | Gsub1_1 cov delta =>
         let mm := stable_sort (map (fun k => (k, (k + delta) mod 65536)) cov) in
         seq1_toks (length mm) mm true l
